@@ -100,3 +100,25 @@ def logged {σ : Type} (ev : σ → Str → Str × σ) (st : σ × List Str) (c 
   ((ev st.1 c).1, ((ev st.1 c).2, st.2 ++ [c]))
 
 end Ecal.InterpImpl
+
+namespace Ecal.InterpImpl
+open Ecal.Interp
+
+/-- the outcome of evaluating ONE embedded expression: the text of its value, or the message of the error that
+    parsing / validating / evaluating it produced -/
+inductive EvOut where
+  | val (text : Str)
+  | err (msg : Str)
+  deriving Repr, DecidableEq
+
+/-- what is put in the expression's place: the value's text, or the error message behind the marker (`#`) -/
+def render (marker : Str) : EvOut → Str
+  | EvOut.val t => t
+  | EvOut.err m => marker ++ m
+
+/-- `stringValueRuntime.Eval` on a string token (value `val`, flag `allowEscapes` set by the lexer): a raw
+    literal is returned untouched, an interpolating one goes through the loop with the rendered outcomes -/
+def evalNode {σ : Type} (marker : Str) (ev : σ → Str → EvOut × σ) (st : σ) (allowEscapes : Bool) (val : Str) : Out σ :=
+  if allowEscapes then impl (fun s c => (render marker (ev s c).1, (ev s c).2)) st val else Out.ok val st
+
+end Ecal.InterpImpl
